@@ -27,10 +27,11 @@ SHARDS = {"quick": 16, "thorough": 16}
 TIMEOUT = {"quick": 900, "thorough": 7200}
 
 STACKS = [("client", 1), ("pooled", 1), ("hash", 1), ("hash", 2), ("hash", 3), ("hashpooled", 2)]
-COLLS = ["list", "tuple", "set", "frozenset", "dict", "dict_keys", "generator", "iterator"]
+COLLS = ["list", "tuple", "set", "frozenset", "dict", "dict_keys", "generator", "iterator", "list-with-repeats"]
 STORES = ["set", "add", "replace", "cas", "set_many", "append", "prepend", "set-flags"]
 FETCHES = ["get", "gets", "gat", "gats", "get_many", "gets_many"]
-SERDES = ["none", "none", "pickle0", "pickle1", "pickle2", "pickle3", "pickle4", "pickle5", "compressed10", "compressed400", "custom"]
+SERDES = ["none", "none", "pickle0", "pickle1", "pickle2", "pickle3", "pickle4", "pickle5", "compressed10", "compressed400", "custom",
+          "zeroflag", "legacyfuncs"]
 SIZES = [0, 1, 2, 10, 4095, 4096, 4097, 8192, 12289]
 
 
@@ -51,7 +52,22 @@ class CustomSerde:
         raise ValueError("CustomSerde: unexpected flags %r for key %r" % (flags, key))
 
 
+class ZeroFlagSerde:
+    """transforms the value but always reports flags 0 (like the JSON example in the client's docstring)"""
+
+    def serialize(self, key, value):
+        return b"Z:" + repr(value).encode("utf8"), 0
+
+    def deserialize(self, key, value, flags):
+        import ast
+        if value[:2] != b"Z:":
+            raise ValueError("ZeroFlagSerde: not written by me: %r" % value[:10])
+        return ast.literal_eval(value[2:].decode("utf8"))
+
+
 def make_serde(name):
+    if name == "zeroflag":
+        return ZeroFlagSerde()
     from pymemcache import serde
     if name == "none":
         return None
@@ -100,6 +116,8 @@ def gen_key(rng, unicode, prefix, used):
 
 
 def gen_value(rng, serde_name, tier):
+    if serde_name in ("zeroflag", "legacyfuncs"):
+        return rng.choice([b"bytes\r\nvalue", "text", 17, ("tuple", 1), {"k": [1, 2]}, b"", None, 2.5])
     if serde_name in ("none", "custom") or rng.random() < 0.25:
         c = rng.randrange(9)
         if c == 0:
@@ -143,6 +161,9 @@ def collection(kind, keys, rng):
         return {k: None for k in keys}
     if kind == "dict_keys":
         return {k: None for k in keys}.keys()
+    if kind == "list-with-repeats":
+        ks = list(keys)
+        return [ks[0]] + ks + [ks[-1], ks[0]]
     if kind == "generator":
         return (k for k in keys)
     return iter(list(keys))
@@ -150,16 +171,13 @@ def collection(kind, keys, rng):
 
 def run_case(res, case_seed, tier):
     rng = random.Random(case_seed)
-    g = case_seed
-    stack, nserv = STACKS[g % len(STACKS)]
-    g //= len(STACKS)
-    coll = COLLS[g % len(COLLS)]
-    g //= len(COLLS)
-    store = STORES[g % len(STORES)]
-    g //= len(STORES)
-    fetch = FETCHES[g % len(FETCHES)]
-    g //= len(FETCHES)
-    serde_name = SERDES[g % len(SERDES)]
+    # every dimension drawn independently from the case seed, so any run length samples the whole grid
+    g = random.Random(case_seed * 2654435761 % (1 << 32))
+    serde_name = g.choice(SERDES)
+    stack, nserv = g.choice(STACKS)
+    coll = g.choice(COLLS)
+    store = g.choice(STORES)
+    fetch = g.choice(FETCHES)
     unicode = rng.random() < 0.4
     prefix = rng.choice([b"", b"", b"p:", b"ns/" * 20, b"P" * 200])
     encoding = rng.choice(["ascii", "utf8"])
@@ -167,8 +185,11 @@ def run_case(res, case_seed, tier):
         serde_name = "none"
     cfg = {"allow_unicode_keys": unicode, "key_prefix": prefix, "encoding": encoding, "default_noreply": rng.random() < 0.5}
     servers = [("mc%d" % i, 11211) for i in range(1, nserv + 1)]
+    if serde_name == "legacyfuncs":
+        z = ZeroFlagSerde()
+        cfg = dict(cfg, serializer=z.serialize, deserializer=z.deserialize)
     w = driver.World({"stack": stack, "servers": servers, "cfg": cfg, "seg": ("random", case_seed), "prefill": {}})
-    sd = make_serde(serde_name)
+    sd = make_serde(serde_name) if serde_name != "legacyfuncs" else None
     if sd is not None:
         _set_serde(w.obj, sd)
     case = case_seed
